@@ -115,8 +115,8 @@ pub const NAMES: [&str; 12] = [
 ];
 pub const ARCHQUALS: [&str; 4] = ["any", "native", "amd64", "i386"];
 pub const OPS: [&str; 5] = ["<<", "<=", "=", ">=", ">>"];
-pub const VERSIONS: [&str; 12] = [
-    "1.0", "2.3-1", "1:2.0", "1.0~rc1", "0.9+dfsg-2~bpo1", "13", "2:1.0-1+b1", "1.0-1", "0", "4.5.6~", "1:0~0", "7.1.2-3ubuntu1",
+pub const VERSIONS: [&str; 13] = [
+    "1.0", "2.3-1", "1:2.0", "1.0~rc1", "0.9+dfsg-2~bpo1", "13", "2:1.0-1+b1", "1.0-1", "0", "4.5.6~", "1:0~0", "7.1.2-3ubuntu1", "0:1.2-3",
 ];
 pub const ARCHS: [&str; 6] = ["amd64", "i386", "linux-any", "any-arm64", "hurd-i386", "all"];
 pub const PROFILES: [&str; 5] = ["nocheck", "stage1", "cross", "pkg.foo.bar", "nodoc"];
